@@ -2,7 +2,7 @@ package main
 
 func extraSelftestSets() []wp {
 	return []wp{
-		{"pw", "roundtrip", 150}, {"pw", "ignore", 150}, {"pw", "links", 150}, {"pw", "spell", 200}, {"pw", "meta", 100}, {"pw", "hostile", 100},
-		{"bw", "clean", 200}, {"bw", "order", 150}, {"bw", "versions", 100}, {"bw", "trees", 100}, {"bw", "post", 150}, {"bw", "hostile", 100}, {"bw", "faultsweep", 40},
+		{"pw", "roundtrip", 150}, {"pw", "ignore", 150}, {"pw", "links", 150}, {"pw", "spell", 200}, {"pw", "meta", 100}, {"pw", "hostile", 100}, {"pw", "mutate", 60},
+		{"bw", "clean", 200}, {"bw", "order", 150}, {"bw", "versions", 100}, {"bw", "trees", 100}, {"bw", "post", 150}, {"bw", "hostile", 100}, {"bw", "faultsweep", 40}, {"bw", "errors", 100}, {"bw", "rules", 100},
 	}
 }
